@@ -857,7 +857,7 @@ impl<'a> Constraint<'a> {
                                 .expect("temp_id must work")
                         });
                     s += &format!(
-                        "ANNOTATION{}{} \"{}\"",
+                        "ANNOTATION{}{} \"{}\";",
                         qualifier.as_str(),
                         if depth == &AnnotationDepth::Max {
                             " RECURSIVE"
@@ -883,7 +883,7 @@ impl<'a> Constraint<'a> {
                     let data = dataset.annotationdata(handle).or_fail()?;
                     let operator_value: DataOperator = data.value().into();
                     s += &format!(
-                        "DATA{} \"{}\" \"{}\" {}",
+                        "DATA{} \"{}\" \"{}\" {};",
                         qualifier.as_str(),
                         dataset.id().expect("set must have id"),
                         data.key().id().expect("key must have id"),
@@ -905,7 +905,7 @@ impl<'a> Constraint<'a> {
                     let dataset = store.dataset(sethandle).or_fail()?;
                     let key = dataset.key(handle).or_fail()?;
                     s += &format!(
-                        "DATA{} \"{}\" \"{}\"",
+                        "DATA{} \"{}\" \"{}\";",
                         qualifier.as_str(),
                         dataset.id().expect("set must have id"),
                         key.id().expect("key must have id")
@@ -931,7 +931,7 @@ impl<'a> Constraint<'a> {
                             .map(|s| Cow::Owned(s))
                             .expect("temp_id must work")
                     });
-                    s += &format!("RESOURCE{} \"{}\"", qualifier.as_str(), id);
+                    s += &format!("RESOURCE{} \"{}\";", qualifier.as_str(), id);
                     if i < handles.len() - 1 {
                         s += " OR ";
                     }
@@ -948,7 +948,7 @@ impl<'a> Constraint<'a> {
                     let resource = store.resource(reshandle).or_fail()?;
                     let textselection = resource.textselection_by_handle(handle)?;
                     s += &format!(
-                        "RESOURCE{} \"{}\" OFFSET {} {}",
+                        "RESOURCE{} \"{}\" OFFSET {} {};",
                         qualifier.as_str(),
                         resource.id().expect("resource must have id"),
                         textselection.begin(),
